@@ -1396,4 +1396,120 @@ theorem depsTransitive_sound (s : Repo) : ∀ fuel h acc d, d ∈ depsTransitive
     unfold depsTransitive at hd
     exact depsLoop_sound s _ h ih h.deps acc d (fun _ hx => hx) hd
 
+/-! ### completeness of the transitive dependency query -/
+
+theorem subset_addSet (d : Str) (acc : List Str) : ∀ x ∈ acc, x ∈ addSet d acc :=
+  fun _ hx => mem_addSet.mpr (Or.inr hx)
+
+theorem depsLoop_mono (s : Repo) (recur : Hdr → List Str → List Str)
+    (hrec : ∀ h acc, ∀ x ∈ acc, x ∈ recur h acc) :
+    ∀ ds acc, ∀ x ∈ acc, x ∈ depsLoop s recur ds acc := by
+  intro ds
+  induction ds with
+  | nil => intro acc x hx; simpa [depsLoop] using hx
+  | cons y ys ih =>
+    intro acc x hx
+    unfold depsLoop
+    simp only
+    have h1 := subset_addSet y acc x hx
+    cases hsd : splitDep y with
+    | none => simpa using h1
+    | some p =>
+      obtain ⟨dn, dv⟩ := p
+      simp only
+      cases hg : getRegistered s dn with
+      | none => simpa using h1
+      | some tl =>
+        simp only
+        exact ih _ x (hrec tl.hdr _ x h1)
+
+theorem depsTransitive_mono (s : Repo) : ∀ fuel h acc, ∀ x ∈ acc, x ∈ depsTransitive s fuel h acc := by
+  intro fuel
+  induction fuel with
+  | zero => intro h acc x hx; simpa [depsTransitive] using hx
+  | succ fuel ih =>
+    intro h acc x hx
+    unfold depsTransitive
+    exact depsLoop_mono s _ ih h.deps acc x hx
+
+/-- a recorded dependency that splits at a '-' and whose namespace is registered -/
+def DepKnown (s : Repo) (d : Str) : Prop :=
+  ∃ dn dv tl, splitDep d = some (dn, dv) ∧ getRegistered s dn = some tl
+
+theorem depsLoop_complete (s : Repo) (recur : Hdr → List Str → List Str)
+    (hrec : ∀ h acc, ∀ x ∈ acc, x ∈ recur h acc) :
+    ∀ ds acc, (∀ y ∈ ds, DepKnown s y) →
+      (∀ y ∈ ds, y ∈ depsLoop s recur ds acc) ∧
+      (∀ y ∈ ds, ∀ dn dv tl, splitDep y = some (dn, dv) → getRegistered s dn = some tl →
+        ∀ d, (∀ acc', d ∈ recur tl.hdr acc') → d ∈ depsLoop s recur ds acc) := by
+  intro ds
+  induction ds with
+  | nil =>
+    intro acc _
+    refine ⟨?_, ?_⟩
+    · intro y hy; cases hy
+    · intro y hy; cases hy
+  | cons y ys ih =>
+    intro acc hk
+    obtain ⟨dn, dv, tl, hsd, hg⟩ := hk y List.mem_cons_self
+    have hk' : ∀ z ∈ ys, DepKnown s z := fun z hz => hk z (List.mem_cons_of_mem _ hz)
+    have heq : depsLoop s recur (y :: ys) acc = depsLoop s recur ys (recur tl.hdr (addSet y acc)) := by
+      rw [depsLoop]; simp only [hsd, hg]
+    rw [heq]
+    obtain ⟨i1, i2⟩ := ih (recur tl.hdr (addSet y acc)) hk'
+    have hmono := depsLoop_mono s recur hrec ys (recur tl.hdr (addSet y acc))
+    refine ⟨?_, ?_⟩
+    · intro z hz
+      rcases List.mem_cons.mp hz with rfl | hz
+      · exact hmono _ (hrec _ _ _ (mem_addSet.mpr (Or.inl rfl)))
+      · exact i1 z hz
+    · intro z hz dn' dv' tl' hsd' hg' d hd
+      rcases List.mem_cons.mp hz with rfl | hz
+      · rw [hsd] at hsd'
+        cases hsd'
+        rw [hg] at hg'
+        cases hg'
+        exact hmono _ (hd _)
+      · exact i2 z hz dn' dv' tl' hsd' hg' d hd
+
+theorem getRegistered_ns {s : Repo} {ns : Str} {tl : Typelib} (h : getRegistered s ns = some tl) :
+    tl.hdr.ns = ns := by
+  unfold getRegistered at h
+  cases hst : getRegisteredStatus s ns none true with
+  | found t =>
+    simp only [hst, Option.some.injEq] at h
+    subst h
+    exact (status_found hst).1
+  | conflict v => simp [hst] at h
+  | absent b => simp [hst] at h
+
+/-- with enough fuel for the rank, everything reachable is reported -/
+theorem depsTransitive_complete (s : Repo) (rank : Str → Nat)
+    (hrk : ∀ dn tl, getRegistered s dn = some tl → HdrRanked rank tl.hdr)
+    (hkn : ∀ dn tl, getRegistered s dn = some tl → ∀ d ∈ tl.hdr.deps, DepKnown s d)
+    (h : Hdr) (d : Str) (hreach : ReachHdr s h d) :
+    HdrRanked rank h → (∀ x ∈ h.deps, DepKnown s x) →
+    ∀ fuel acc, rank h.ns < fuel → d ∈ depsTransitive s fuel h acc := by
+  induction hreach with
+  | @imm h d hd =>
+    intro _ hk fuel acc hf
+    cases fuel with
+    | zero => cases hf
+    | succ fuel =>
+      unfold depsTransitive
+      exact (depsLoop_complete s _ (depsTransitive_mono s fuel) h.deps acc hk).1 d hd
+  | @step h d d' dn dv tl hd' hsd hg _ ih =>
+    intro hr hk fuel acc hf
+    cases fuel with
+    | zero => cases hf
+    | succ fuel =>
+      unfold depsTransitive
+      have hns := getRegistered_ns hg
+      have hlt : rank tl.hdr.ns < fuel := by
+        have := hr d' hd' dn dv hsd
+        rw [hns]; omega
+      refine (depsLoop_complete s _ (depsTransitive_mono s fuel) h.deps acc hk).2 d' hd' dn dv tl hsd hg d ?_
+      intro acc'
+      exact ih (hrk dn tl hg) (hkn dn tl hg) fuel acc' hlt
+
 end GIVerif.Repo
